@@ -7,6 +7,7 @@ The batched renderer's window arithmetic is C11's model (Batch.lean).
 import DTML.Render
 import DTML.Props.C08
 import DTML.Props.C11
+import DTML.Props.C02
 set_option linter.unusedVariables false
 namespace DTML.Props.C10
 open DTML.Render
@@ -675,5 +676,10 @@ example : okText (renderBlk {} 60 (.inx_ (.name "seq".toList) {} { batch := some
 end Example
 
 end Batched
+
+/-! ### The per-item pushes rest on the instance lookup of the source (regenerated on every run, proved in Props/C02) -/
+theorem gen_item_lookup_is_model (env : Env) (v : Val) (cache : List (Text × Val)) (key : Text) (tr : List Event) :
+    GenNs.instGetitemGen env v cache key tr = frameGet env (.inst v cache) key tr :=
+  C02.gen_instancedict_getitem_is_model env v cache key tr
 
 end DTML.Props.C10
